@@ -180,6 +180,20 @@ func generateRegexMatch(w io.Writer, lexerName, name, pattern string) error {
 	// Fast-path a single literal.
 	if len(flattened) == 1 && re.Op == syntax.OpLiteral {
 		n := len(string(re.Rune)) // Length in bytes.
+		if re.Flags&syntax.FoldCase != 0 && !foldKeepsWidth(re.Rune) {
+			// The matched text may be shorter or longer than the literal (eg. "ſ" for "s"): compare rune by rune.
+			fmt.Fprintf(w, "np := p\n")
+			fmt.Fprintf(w, "for _, c := range %q {\n", string(re.Rune))
+			fmt.Fprintf(w, "r, n := utf8.DecodeRuneInString(s[np:])\n")
+			fmt.Fprintf(w, "if n == 0 || !strings.EqualFold(string(r), string(c)) { return }\n")
+			fmt.Fprintf(w, "np += n\n")
+			fmt.Fprintf(w, "}\n")
+			fmt.Fprintf(w, "groups[0] = p\n")
+			fmt.Fprintf(w, "groups[1] = np\n")
+			fmt.Fprintf(w, "return\n")
+			fmt.Fprintf(w, "}\n")
+			return nil
+		}
 		if re.Flags&syntax.FoldCase != 0 {
 			fmt.Fprintf(w, "if p+%d <= len(s) && strings.EqualFold(s[p:p+%d], %q) {\n", n, n, string(re.Rune))
 		} else {
@@ -217,6 +231,15 @@ func generateRegexMatch(w io.Writer, lexerName, name, pattern string) error {
 			if re.Flags&syntax.FoldCase != 0 {
 				if n == 1 && !unicode.IsLetter(re.Rune[0]) {
 					fmt.Fprintf(w, "if p < len(s) && s[p] == %q { return p+1 }\n", re.Rune[0])
+				} else if !foldKeepsWidth(re.Rune) {
+					// The matched text may be shorter or longer than the literal (eg. "ſ" for "s"): compare rune by rune.
+					fmt.Fprintf(w, "for _, c := range %q {\n", string(re.Rune))
+					fmt.Fprintf(w, "r, n := utf8.DecodeRuneInString(s[p:])\n")
+					fmt.Fprintf(w, "if n == 0 || !strings.EqualFold(string(r), string(c)) { return -1 }\n")
+					fmt.Fprintf(w, "p += n\n")
+					fmt.Fprintf(w, "}\n")
+					fmt.Fprintf(w, "return p\n")
+					break
 				} else {
 					fmt.Fprintf(w, "if p+%d <= len(s) && strings.EqualFold(s[p:p+%d], %q) { return p+%d }\n", n, n, string(re.Rune), n)
 				}
@@ -383,6 +406,19 @@ func generateRegexMatch(w io.Writer, lexerName, name, pattern string) error {
 	fmt.Fprintf(w, "return\n")
 	fmt.Fprintf(w, "}\n")
 	return nil
+}
+
+// foldKeepsWidth reports whether every text that matches the literal case-insensitively has the literal's length
+// in bytes, ie. whether no rune has a case-folding equivalent of another UTF-8 length (as "s" and "ſ", "k" and "K").
+func foldKeepsWidth(literal []rune) bool {
+	for _, c := range literal {
+		for r := unicode.SimpleFold(c); r != c; r = unicode.SimpleFold(r) {
+			if utf8.RuneLen(r) != utf8.RuneLen(c) {
+				return false
+			}
+		}
+	}
+	return true
 }
 
 // This exists because of https://github.com/golang/go/issues/31666
